@@ -25,7 +25,13 @@ pub fn judge(tree: &E, choices: &[u16]) -> Verdict {
     let Some(var) = render::variant(tree, &mut ch) else { return Verdict::Skip("tree has no text form") };
     let base = match parse_pair(&canon) {
         Err(p) => return Verdict::Fail(format!("parse panicked on canonical spelling {canon:?}: {p}")),
-        Ok(Err(_)) => return Verdict::Skip("canonical spelling rejected (C05/C03 decide that)"),
+        Ok(Err(e)) => {
+            // both spellings rejected: not this property's business; one accepted: they differ
+            return match parse_pair(&var) {
+                Ok(Ok(g)) => Verdict::Fail(format!("equivalent spellings disagree: {var:?} parses to {:?} but {canon:?} is rejected: {e}", g.1)),
+                _ => Verdict::Skip("both spellings rejected (C05/C03 decide that)"),
+            };
+        }
         Ok(Ok(b)) => b,
     };
     let got = match parse_pair(&var) {
